@@ -56,7 +56,7 @@ Print Assumptions C02_submission_additions.
 
 (** the pieces are what RfC 5322 calls them; the sender the From field carries is the one of the transaction:
     smtp_data is run with [d_from] = xmitstat.mailfrom, [d_subm] = (port is 587) - by definition of h_data, see
-    C02_submission_parameters *)
+    C02_handoff_message *)
 Theorem C02_submission_constants :
   SUBM_PORT = [53; 56; 55]%N /\ HDR_PATTERNS = [s_hdr_date; s_hdr_from; s_hdr_msgid]
   /\ SUBM_DATE_PFX = [68; 97; 116; 101; 58; 32]%N /\ SUBM_FROM_PFX = [70; 114; 111; 109; 58; 32; 60]%N /\ SUBM_FROM_END = [62; LF]%N
@@ -64,9 +64,50 @@ Theorem C02_submission_constants :
 Proof. repeat split. Qed.
 Print Assumptions C02_submission_constants.
 
-(** the checker that judges the message of every hand-off of the IMPLEMENTATION in the correspondence runs accepts the model *)
+(** THE PROPERTY AS STATED ("... when the client omitted them") judges the omission on the submitted message, i.e. on
+    the header lines as they are stored ([field_stored] in [queued_full]).  This does NOT hold: a header line transmitted
+    with a needless leading dot (".Date: x", which every receiver must store as "Date: x", RfC 5321 4.5.2) is skipped by
+    the header checks of smtp_data, so the field counts as missing and a second one is added. *)
+Definition C02_submission_full : Prop := forall fuel o dc r trace msg sz seen r',
+  rstate_ok r -> data_loop fuel o dc r trace = (D_eod msg sz seen, r') -> msg = trace ++ queued_full (par_of dc) seen.
+
+Theorem C02_submission_full_refuted : ~ C02_submission_full.
+Proof.
+  intros F.
+  pose (o := {| o_helo := fun _ => true; o_addr := fun _ _ => AP_nobracket; o_ext := fun _ => Ext_einval; o_relay := 0%Z; o_mx := fun _ => 0;
+                o_qq := fun _ => QQ_ok; o_databytes := 0%N; o_liphost := []; o_check2822 := false; o_authperm := false;
+                o_auth := fun _ => Auth_multi; o_trace := fun _ _ _ _ _ _ => [];
+                o_submission := true; o_subm_date := []; o_subm_stamp := []; o_msgidhost := [] |}).
+  pose (dc := {| d_wfail := false; d_chk := false; d_dt := false; d_rcpts := []; d_subm := true;
+                 d_date := [88]%N; d_from := [102]%N; d_stamp := [49]%N; d_idhost := [104]%N |}).
+  (* the client sends  .Date: x CRLF . CRLF *)
+  pose (r := {| inn := []; en := {| cur := []; future := [[46; 68; 97; 116; 101; 58; 32; 120; 13; 10; 46; 13; 10]%N] |} |}).
+  assert (Hok : rstate_ok r) by (unfold rstate_ok; cbn; apply Nat.le_0_l).
+  let res := eval vm_compute in (data_loop 10 o dc r []) in
+  match res with
+  | (D_eod ?m ?sz ?sn, ?r') =>
+      assert (E : data_loop 10 o dc r [] = (D_eod m sz sn, r')) by (vm_compute; reflexivity);
+      pose proof (F 10 o dc r [] m sz sn r' Hok E) as X; vm_compute in X; discriminate X
+  end.
+Qed.
+Print Assumptions C02_submission_full_refuted.
+
+(** ... and it holds for every message outside that class: no header line hides one of the three names behind a leading dot *)
+Theorem C02_submission_partial : forall fuel o dc r trace msg sz seen r',
+  rstate_ok r -> data_loop fuel o dc r trace = (D_eod msg sz seen, r') ->
+  hidden_field (hdr_part seen) = false -> msg = trace ++ queued_full (par_of dc) seen.
+Proof.
+  intros fuel o dc r trace msg sz seen r' Hok H Hc.
+  pose proof (data_loop_spec fuel o dc r trace _ r' Hok H) as X. cbn in X. destruct X as (Hm & _).
+  rewrite Hm. now rewrite (queued_full_eq (par_of dc) seen (or_intror Hc)).
+Qed.
+Print Assumptions C02_submission_partial.
+
+(** the checker that judges the message of every hand-off of the IMPLEMENTATION in the correspondence runs (the property
+    as stated: [queued_full]) accepts the model on every port other than 587, and on 587 outside the class above *)
 Theorem C02_message_checker_sound : forall fuel o dc r trace msg sz seen r',
-  rstate_ok r -> data_loop fuel o dc r trace = (D_eod msg sz seen, r') -> handoff_msg_ok (par_of dc) seen msg = true.
+  rstate_ok r -> data_loop fuel o dc r trace = (D_eod msg sz seen, r') ->
+  d_subm dc = false \/ hidden_field (hdr_part seen) = false -> handoff_msg_ok (par_of dc) seen msg = true.
 Proof. exact handoff_msg_sound. Qed.
 Print Assumptions C02_message_checker_sound.
 
